@@ -229,6 +229,8 @@ def gen_history(draw, tier="quick", twin=False):
         kinds += ["period", "fmodes"]
     else:
         kinds += ["mode_no", "sampling"]
+    if not twin:
+        kinds += ["move_pos", "move_pos"]
     ops = []
     for _ in range(nops):
         k = draw(st.sampled_from(kinds))
@@ -242,6 +244,11 @@ def gen_history(draw, tier="quick", twin=False):
             op["name"] = draw(st.sampled_from(names))
             op["factor"] = draw(st.one_of(logfloat(1.05, 4.0), logfloat(0.25, 0.95)))
             op["idx"] = draw(st.integers(0, 2))
+        elif k == "move_pos":
+            # the next request is for (slightly) different points: a tiny relative or absolute move, or an offset into
+            # large (projected-coordinate like) values where a small move is tiny in relative terms
+            op["how"] = draw(st.sampled_from(["rel", "abs", "offset"]))
+            op["v"] = draw(st.sampled_from([3e-6, 1e-7, 5e-9])) if op["how"] != "offset" else draw(st.sampled_from([1e5, 3e6]))
         elif k == "mode_no":
             op["v"] = draw(st.sampled_from([8, 16, 32, 64]))
         elif k == "sampling":
@@ -388,6 +395,13 @@ def check_history(case, rec):
                         f"{where}: field differs from a freshly built {g} SRF with the current settings (seed {cur_seed}) by {err:.3g}",
                         dict(otags, kind="stale_state"),
                     )
+                elif k == "move_pos":
+                    if op["how"] == "rel":
+                        pos = pos * (1.0 + op["v"])
+                    elif op["how"] == "abs":
+                        pos = pos + op["v"]
+                    else:
+                        pos = pos + op["v"] * (1.0 + 0.1 * np.arange(dim))[:, None]
                 elif k == "param":
                     _apply_param(srf.model, op, spec)
                 elif k == "restore":
